@@ -511,7 +511,7 @@ pub struct FOddKeys;
 
 impl FOddKeys {
     const KEYS: u64 = 10;
-    const READERS: u64 = 14;
+    const READERS: u64 = 20;
     const SIZES: u64 = 2;
 }
 
@@ -578,10 +578,16 @@ impl Family for FOddKeys {
             10 => logv("filter", C::Len(b(call("std.filter", vec![C::Function("cb".into()), rv("t")])))),
             11 => logv("map", C::Len(b(call("std.map", vec![C::Function("cb".into()), rv("t")])))),
             12 => logv("eq", bin(BinOp::Equals, rv("t"), rv("t"))),
+            14 => logv("max", C::Len(b(call("std.max", vec![rv("t")])))),
+            15 => logv("max_by_key", C::Len(b(call("std.max_by_key", vec![C::Function("kf".into()), rv("t")])))),
+            16 => logv("min_by_key", C::Len(b(call("std.min_by_key", vec![C::Function("kf".into()), rv("t")])))),
+            17 => logv("sorted_by_key", C::Len(b(call("std.sorted_by_key", vec![C::Function("kf".into()), rv("t")])))),
+            18 => logv("any", call("std.any", vec![C::Function("cb".into()), rv("t")])),
+            19 => logv("less", bin(BinOp::Less, rv("t"), rv("t"))),
             _ => comp(vec![sv("copy", C::CreateTable), C::ForEach { i: None, k: Some("k".into()), v: Some("v".into()), iterable: b(rv("t")), body: b(C::SetProperty(b(rv("v")), b(rv("copy")), b(rv("k")))) }, logv("copied", C::Len(b(rv("copy"))))]),
         });
         cards.push(sg("done", int(1)));
-        module(vec![("main", func(&[], cards)), ("main2", func(&[], vec![])), ("cb", func(&["k", "v", "i"], vec![C::Return(b(int(1)))]))])
+        module(vec![("main", func(&[], cards)), ("main2", func(&[], vec![])), ("cb", func(&["k", "v", "i"], vec![C::Return(b(int(1)))])), ("kf", func(&["key", "value"], vec![C::Return(b(C::Len(b(rv("value")))))]))])
     }
 }
 
